@@ -31,6 +31,7 @@ structure Reads where
   profile : UInt16
   ids  : List UInt8                         -- GetExtensionIDs()
   gets : List (UInt8 × Option Bytes)        -- GetExtension(id) for every listed id, then the op's id
+                                            -- (nil and empty identified: C02.canonV)
   deriving DecidableEq, Repr
 
 structure StepObs where
@@ -63,7 +64,7 @@ def startHeader : Start → Option Header
 def modelReads (h : Header) (extra : List UInt8) : Reads :=
   let ids := getExtensionIDs h
   { x := h.extension, profile := (C01.canonH h).extProfile,
-    ids := ids, gets := (ids ++ extra).map fun id => (id, getExtension h id) }
+    ids := ids, gets := (ids ++ extra).map fun id => (id, C02.canonV (getExtension h id)) }
 
 def modelStep (h : Header) : Op → Option Err × Header
   | .set id v => setExtension h id v
@@ -91,7 +92,7 @@ def modelFinal (h : Header) : FinalObs :=
     marshal := m
     un := dec.map fun _ => ()
     wireGets := match dec with
-      | .ok h' => ids.map fun id => (id, getExtension h' id)
+      | .ok h' => ids.map fun id => (id, C02.canonV (getExtension h' id))
       | _ => [] }
 
 def emptyObs : Obs :=
@@ -114,7 +115,7 @@ def modelObs (s : Start) (ops : List Op) : Obs :=
 /-- the reads show exactly the map: keys in order, first-match values, for every key and `extra` -/
 def readsOk (m : Map) (extra : List UInt8) (r : Reads) : Bool :=
   r.ids == OM.keys m &&
-  r.gets == (OM.keys m ++ extra).map fun k => (k, OM.get m k)
+  r.gets == (OM.keys m ++ extra).map fun k => (k, C02.canonV (OM.get m k))
 
 /-- fold the history: an operation that returned nil is applied to the map, one that returned an
     error is not and must leave the public fields (X flag, profile: `prev`) as they were; after
@@ -144,7 +145,7 @@ def finalOk (m : Map) (f : FinalObs) : Bool :=
     f.extension && isLegacy f.profile &&
       (match m with | (_, v) :: _ => v.length % 4 != 0 | [] => false)
   | .ok _ =>
-    (m.isEmpty || f.un == .ok ()) && f.wireGets == (OM.keys m).map fun k => (k, OM.get m k)
+    (m.isEmpty || f.un == .ok ()) && f.wireGets == (OM.keys m).map fun k => (k, C02.canonV (OM.get m k))
 
 def holds (ops : List Op) (o : Obs) : Bool :=
   !o.startOk ||
